@@ -7,6 +7,7 @@ import (
 	"encoding/json"
 	"fmt"
 	"os"
+	"path/filepath"
 	"sort"
 	"strings"
 	"sync"
@@ -651,14 +652,116 @@ func scenarioCleanVsTransfer(cycle bool, bound int) *vh.SchedScenario {
 	}}
 }
 
+// scenarioCleanStaleVsNewVersion: a stale (two days old) duplicate partial + companion of a version
+// of x that was delivered in an earlier run (known from the receive log only) lies in the staging
+// area, so the cleaner's verdict for it is "remove". While the cleaner is at work a connection
+// delivers a NEW version of x in two parts (held afterwards for a predecessor that does not come).
+// Whatever the cleaner does with the stale duplicate, every acknowledged byte of the new version
+// must still be there: body complete and held, companion naming the new hash.
+func scenarioCleanStaleVsNewVersion(bound int) *vh.SchedScenario {
+	return &vh.SchedScenario{Name: "clean-stale-duplicate-vs-new-version", Bound: bound, Build: func(x *vrt.Sched) func(*vrt.Sched) (string, string, string) {
+		files := []*sFile{
+			{Key: "x1", Name: "x", Data: "XXXXYYYY", Cuts: []int64{0, 4, 8}},
+			{Key: "x2", Name: "x", Prev: "p", Data: "xxxxyyyy", Cuts: []int64{0, 4, 8}},
+		}
+		h1 := files[0].hash()
+		sw := newSchedWorldPre(files, func(w *rw) {
+			now := time.Now()
+			t := now.Add(-72 * time.Hour)
+			p := filepath.Join(w.logDir, fmt.Sprintf("%04d%02d", t.Year(), t.Month()), fmt.Sprintf("%02d", t.Day()))
+			_ = os.MkdirAll(filepath.Dir(p), 0755)
+			if err := os.WriteFile(p, []byte(fmt.Sprintf("x::%s:%d:%d:\n", h1, 8, t.Unix())), 0644); err != nil {
+				panic(err)
+			}
+			path := filepath.Join(w.stageDir, "x")
+			if err := os.WriteFile(path+partExt, []byte("XXXX\x00\x00\x00\x00"), 0644); err != nil {
+				panic(err)
+			}
+			cmp := &sts.Partial{Name: "x", Size: 8, Hash: h1, Source: "src", Parts: []*sts.ByteRange{{Beg: 0, End: 4}}}
+			cmp.Time.Time = t
+			if err := writeCompanion(path, cmp); err != nil {
+				panic(err)
+			}
+			old := now.Add(-48 * time.Hour)
+			_ = os.Chtimes(path+partExt, old, old)
+			_ = os.Chtimes(path+compExt, old, old)
+		})
+		// What the cleaner removes, and when: the known finding "stale-verdict-races-new-version" is
+		// the removal of x.part (which existed) - and, after that, of x.cmp - on a verdict made before
+		// the connection started to use the path. A companion removed without its partial having been
+		// removed by the cleaner, or any removal in an execution where the connection had not started
+		// when the cleaner finished, is not that finding.
+		var connStarted, cleanerDone atomic.Bool
+		var cleanerID atomic.Uint64
+		partRemoved, cmpAlone, overlapped := false, false, false
+		inner := vos.Hook
+		vos.Hook = func(op, p1, p2 string) error {
+			err := inner(op, p1, p2) // the scheduling point: the operation itself follows without another one
+			if op == "remove" && vrt.Goid() == cleanerID.Load() {
+				sw.hmu.Lock()
+				switch {
+				case strings.HasSuffix(p1, "/x"+partExt):
+					if exists(p1) {
+						partRemoved = true
+					}
+				case strings.HasSuffix(p1, "/x"+compExt):
+					if !partRemoved {
+						cmpAlone = true
+					}
+				}
+				if connStarted.Load() {
+					overlapped = true
+				}
+				sw.hmu.Unlock()
+			}
+			return err
+		}
+		x.Go("conn", func() { connStarted.Store(true); sw.recv("x2", 0, false); sw.recv("x2", 1, false) })
+		x.Go("cleaner", func() { cleanerID.Store(vrt.Goid()); sw.w.st.CleanNow(); cleanerDone.Store(true) })
+		class := func() string {
+			if c := sw.class(); c != "" {
+				return c
+			}
+			if overlapped && partRemoved && !cmpAlone {
+				return "stale-verdict-races-new-version"
+			}
+			return ""
+		}
+		return func(x *vrt.Sched) (string, string, string) {
+			defer sw.close()
+			if x.Deadlock != "" {
+				return "cleaning concurrent with a transfer does not terminate", "", ""
+			}
+			if x.Diverged != "" {
+				return "", "", ""
+			}
+			_, log, stage := sw.finish()
+			if sw.errs["x2.0"] != nil || sw.errs["x2.1"] != nil {
+				return "", "", fmt.Sprintf("receive error: %v", sw.errs)
+			}
+			f := sw.files["x2"]
+			body, held := sw.w.staged("x", waitExt)
+			cmp, _ := readLocalCompanion(filepath.Join(sw.w.stageDir, "x"), "x")
+			if !held || string(body) != f.Data || cmp == nil || cmp.Hash != f.hash() {
+				ch := "none"
+				if cmp != nil {
+					ch = cmp.Hash
+				}
+				return fmt.Sprintf("both parts of the new version of x were acknowledged while the cleaner dealt with a stale duplicate of the delivered version; afterwards the new version is not held complete in the staging area with its companion (held body=%q, companion hash=%s, want %s): stage=%v log=%v", body, ch, f.hash(), stageNames(stage), log), class(), ""
+			}
+			return "", "", fmt.Sprintf("stage=%v", stageNames(stage))
+		}
+	}}
+}
+
 func TestC20Sched(t *testing.T) {
 	b := 1
 	if vh.Thorough() {
 		b = 2
 	}
 	runSchedScenarios(t, "C20", "cleaning concurrent with a transfer (E-SCHED)", []*vh.SchedScenario{
-		scenarioCleanVsTransfer(false, 2), scenarioCleanVsTransfer(true, b),
-	}, fmt.Sprintf("all interleavings with <= 2 (with the cycle: <= %d) preemptions of CleanNow against the reception of the last part of a file with its validation and finalization, without and with two other files held in a predecessor cycle (the cleaner then walks the wait map and re-enters the cache lock); deadlock = violation", b))
+		scenarioCleanVsTransfer(false, 2), scenarioCleanVsTransfer(true, b), scenarioCleanStaleVsNewVersion(2),
+	}, fmt.Sprintf("all interleavings with <= 2 (with the cycle: <= %d) preemptions of CleanNow against the reception of the last part of a file with its validation and finalization, without and with two other files held in a predecessor cycle (the cleaner then walks the wait map and re-enters the cache lock); CleanNow against the two parts of a new version of a name whose stale duplicate of a delivered version (known from the log) is due for removal (<= 2 preemptions); deadlock = violation", b))
 }
 
 // ---------------------------------------------------------------- C15: a request arriving around the start of recovery
@@ -720,7 +823,7 @@ func TestSchedRace(t *testing.T) {
 	n := 40
 	for _, sc := range []*vh.SchedScenario{
 		scenarioTwoParts(false, 0), scenarioTwoParts(true, 0), scenarioTwoFiles(false, 0), scenarioTwoFiles(true, 0),
-		scenarioNewVersion(0), scenarioPollDuringValidation(0), scenarioSupersededDuringLookup(0), scenarioChainTwoConnections(0), scenarioDuplicateOnTwoConnections(false, 0), scenarioDuplicateOnTwoConnections(true, 0), scenarioHeldVsNewVersion(0), scenarioCleanVsTransfer(false, 0), scenarioCleanVsTransfer(true, 0), scenarioRecoveryWindow(0),
+		scenarioNewVersion(0), scenarioPollDuringValidation(0), scenarioSupersededDuringLookup(0), scenarioChainTwoConnections(0), scenarioDuplicateOnTwoConnections(false, 0), scenarioDuplicateOnTwoConnections(true, 0), scenarioHeldVsNewVersion(0), scenarioCleanVsTransfer(false, 0), scenarioCleanVsTransfer(true, 0), scenarioCleanStaleVsNewVersion(0), scenarioRecoveryWindow(0),
 	} {
 		vh.FreeRunSched(t, rep, sc, n)
 	}
